@@ -9,7 +9,6 @@ caught = missed = undec = gone = 0
 for seed in sorted(res):
     meta = json.loads((V / "seeded" / seed / "meta.json").read_text())
     summ = re.sub(r"\s+", " ", meta.get("summary", "")).strip()
-    summ = re.sub(r"[\x00-\x08\x0b\x0c\x0e-\x1f]", lambda m: "\\x%02x" % ord(m.group(0)), summ)        # control characters quoted (a seed about `\0` had one)
     summ = (summ[:150] + "…") if len(summ) > 150 else summ
     files = ", ".join(Path(f).name for f in meta.get("files_changed", []))
     cells, obl = [], []
@@ -34,6 +33,7 @@ for seed in sorted(res):
 rows.append("")
 rows.append(f"Totals: {len(res)} seeded changes — {caught} caught (exit 1 with a VIOLATION line), {undec} undecided (exit 2), {missed} not caught, {gone} no longer applicable to the repaired tree.")
 d = (V / "DESIGN.md").read_text()
-d = re.sub(r"<!-- SEEDTABLE:BEGIN -->.*?<!-- SEEDTABLE:END -->", "<!-- SEEDTABLE:BEGIN -->\n" + "\n".join(rows) + "\n<!-- SEEDTABLE:END -->", d, flags=re.S)
+table = "<!-- SEEDTABLE:BEGIN -->\n" + "\n".join(rows) + "\n<!-- SEEDTABLE:END -->"
+d = re.sub(r"<!-- SEEDTABLE:BEGIN -->.*?<!-- SEEDTABLE:END -->", lambda m: table, d, flags=re.S)          # a function: a replacement STRING would have its backslashes read as escapes
 (V / "DESIGN.md").write_text(d)
 print(rows[-1])
